@@ -75,6 +75,34 @@ Section Sessions.
       end
     end.
 
+  (* the part of Resume that runs before its first write (ResumableVersion, CARv2 header probe and
+     padding comparison, inner header read, Matches): Err = refused, Ok = (header found in the
+     file, roots of the inner header).  ResumeReject.v proves resume = inr (e, untouched device)
+     whenever this is Err e. *)
+  Definition resume_checks (can_truncate : bool) (o : wopts) (roots : list bytes) (file : bytes)
+    : res (option v2hdr * list bytes) :=
+    match read_header hdrdec default_maxh file with
+    | Err e => Err e
+    | Ok (_, ver, _, _) =>
+      if negb (((ver =? 1) && w_v1 o) || ((ver =? 2) && negb (w_v1 o))) then Err EOther else
+      let probe : res (option v2hdr) :=
+        if w_v1 o then Ok None
+        else if negb can_truncate then Err EOther
+        else match read_v2hdr (drop pragma_size file) with
+             | Ok (h, _) => if negb (h_doff h =? data_base o) then Err EOther else Ok (Some h)
+             | Err _ => Ok None
+             end in
+      match probe with
+      | Err e => Err e
+      | Ok hin =>
+        match read_header hdrdec (w_maxh o) (drop (data_base o) file) with
+        | Err e => Err e
+        | Ok (hroots, hver, _, _) =>
+          if negb (header_matches hroots hver roots) then Err EOther else Ok (hin, hroots)
+        end
+      end
+    end.
+
   (* C12 guard: what Resume finds at the data offset implied by the caller's padding -- a CARv1
      header that matches the requested roots? *)
   Definition header_at (o' : wopts) (roots' : list bytes) (file : bytes) : bool :=
